@@ -113,6 +113,10 @@ type AccountingSession struct {
 	// Stop pending flag (for crash recovery)
 	StopPending bool
 	StopCause   uint32
+
+	// starting is set while StartSession is still sending the Start and persisting the
+	// session; StopSession refuses the session until then (guarded by sessionsMu).
+	starting bool
 }
 
 // PendingAcctRecord represents a pending accounting record that needs to be sent
@@ -267,6 +271,7 @@ func (am *AccountingManager) StartSession(session *AccountingSession) error {
 	session.StartTime = time.Now()
 	session.LastInterimTime = time.Now()
 
+	session.starting = true
 	am.sessions[session.SessionID] = session
 	am.sessionsMu.Unlock()
 
@@ -300,6 +305,10 @@ func (am *AccountingManager) StartSession(session *AccountingSession) error {
 	// Persist session for crash recovery
 	am.persistActiveSession(session)
 
+	am.sessionsMu.Lock()
+	session.starting = false
+	am.sessionsMu.Unlock()
+
 	am.logger.Info("Accounting started for session",
 		zap.String("session_id", session.SessionID),
 		zap.Duration("interim_interval", session.InterimInterval),
@@ -315,6 +324,13 @@ func (am *AccountingManager) StopSession(sessionID string, terminateCause uint32
 	if !exists {
 		am.sessionsMu.Unlock()
 		return fmt.Errorf("session not found: %s", sessionID)
+	}
+	if session.starting {
+		// StartSession has not sent the Start / persisted the session yet: a Stop now would
+		// reach the server before the Start, and the late persist would leave an orphan
+		// session file from which the next start-up sends the Stop a second time.
+		am.sessionsMu.Unlock()
+		return fmt.Errorf("session start in progress: %s", sessionID)
 	}
 
 	// Mark as stop pending for crash recovery
